@@ -147,7 +147,10 @@ def quest(chk, prog, tier):
     m_q = np.array([dip[0], P.ZERO, dip[1]], dtype=object)
 
     def consistent():
-        acc, mag = E.T @ g_q, E.T @ m_q
+        sa_, sm_ = P.sym("qs1"), P.sym("qs2")          # "whatever the magnitudes of the two measured vectors"
+        P.declare_positive(sa_)
+        P.declare_positive(sm_)
+        acc, mag = sa_ * (E.T @ g_q), sm_ * (E.T @ m_q)
         it, env = prefix_env(acc, mag, wts, g_q, m_q)
         phi, _ = phi_exprs(it, env)
         root = eq(phi.subs({"lam": wts[0] + wts[1]}), P.ZERO, "phi(w0 + w1)")
@@ -157,7 +160,7 @@ def quest(chk, prog, tier):
             return (None, "tail of QUEST.estimate does not return")
         vec = to_obj(r_[1])        # normalised [gamma, Chi]: proportionality is unaffected by the positive scale
         return all_of(root, either(("q", lambda: prop_to(vec, q, "[gamma, Chi] ~ q")), ("q*", lambda: prop_to(vec, conj(q), "[gamma, Chi] ~ q*"))))
-    chk.ob("QUEST.consistent", f.ref, "for consistent unit data w0 + w1 is a root of phi and [gamma, Chi] is proportional to q^", consistent, construct="exact recovery", **kw)
+    chk.ob("QUEST.consistent", f.ref, "for consistent data of any positive magnitudes w0 + w1 is a root of phi and [gamma, Chi] is proportional to q^", consistent, construct="exact recovery", **kw)
 
 
 def oleq(chk, prog):
@@ -307,6 +310,30 @@ ESTIMATOR_CLASSES = ["triad.py::TRIAD", "davenport.py::Davenport", "quest.py::QU
                      "fqa.py::FQA", "tilt.py::Tilt", "aqua.py::AQUA"]
 
 
+def pose_div(chk, prog):
+    """POSE-DIV: the singularity-free estimator (Tilt, scalar and batch copy) divides only by the norms of its samples and by literals:
+    any other divisor is a pose-dependent quantity that vanishes for some attitude (the documented selling point is that none does)."""
+    from sa.facts import Facts
+    for ref, want in ((F + "tilt.py::Tilt.estimate", 2), (F + "tilt.py::Tilt._compute_all", 2)):
+        f = prog.func(ref)
+        chk.touch(f)
+        fa = Facts(f, prog).analyse()
+        n = 0
+        for d in fa.divisions:
+            vn = d["vn"]
+            n += 1
+            site = "%s::/%s" % (ref, vn[:60])
+            if vn.startswith(("c:", "norm(P:", "norm(rows:P:", "norm(S:", "norm(rows:S:")) or d["guarded"]:
+                chk.record("POSE-DIV", site, "divisor is a literal or the (validated / guarded) norm of a raw sample")
+            else:
+                node = d["node"]
+                why = "the singularity-free estimator divides by `%s`, a quantity computed from the pose that is zero for some attitude (e.g. an exactly vertical axis): 0/0 = NaN there" % ast.unparse(node.right if isinstance(node, ast.BinOp) else node)[:80]
+                chk.record("POSE-DIV", site, "no pose-dependent divisor", verdict="VIOLATION", detail=why)
+                chk.finding("POSE-DIV", f.module.rel, f.qname, "division: %s" % ast.unparse(node)[:90], why, line=node.lineno)
+        if n < want:
+            chk.error("POSE-DIV: %s has %d divisions, %d confirmed by hand" % (ref, n, want))
+
+
 def stale_cache(chk, prog):
     """CACHE-COHERENT: estimate() must not memoise into self.<x> a value derived from other (public, re-assignable) attributes:
     after `est.v1 = ...` the next estimate would silently use the stale value, so the answer depends on the call history."""
@@ -380,6 +407,7 @@ def run(chk, prog, tier):
     from props.c07 import flow_rule
     flow_rule(chk, prog)
     stale_cache(chk, prog)
+    pose_div(chk, prog)
     if arm_guard(chk, prog, F + "aqua.py::AQUA.estimate") < 6:
         chk.error("ARM-GUARD: fewer than 6 guarded divisors found in AQUA.estimate (two two-armed formulas confirmed by hand)")
     chk.require_count("OLEQ.fixed", 2)
